@@ -2,6 +2,7 @@
 From Coq Require Import List NArith Bool.
 Import ListNotations.
 Require Import V.Lib.RunCases V.C12.Model.
+Require Export V.C12.GlobModel.
 Open Scope N_scope.
 
 (* projection of a compiled d2graph: per board (sorted by board path) the objects (AbsID; label, shape, fill,
@@ -17,6 +18,9 @@ Inductive case :=
        None = the call panicked *)
 | CPat (text : str) (pat : list str)
     (* d2parser.ParseKey(text): the Pattern of its first path element (oracle hypothesis: alternating) *)
+| CIR (p : program) (impl : option (list (path * option str)))
+    (* d2ir.Compile of a core-fragment program (one scope, explicit keys and single-level field globs): the
+       fields in depth-first order with their primary values; None = compile error *)
 | CExp (g e : gres).
     (* d2compiler.Compile of a glob program, and of its reference expansion (globs replaced by explicit
        declarations on every matching target, at the glob's position for existing targets and at the creation
@@ -82,10 +86,42 @@ Fixpoint has_escaped_star (t : str) : bool :=
       end
   end.
 
+(* ---- the IR model against d2ir.Compile ---- *)
+
+(* the instance the implementation runs: strings.EqualFold on (ASCII) names, the pinned matchPattern *)
+Definition keq_go (a b : str) : bool := str_eqb (go_lower a) (go_lower b).
+Definition mt_go (n : str) (p : list str) : bool := match match_pattern n p with Ok b => b | Crash => false end.
+
+Definition fproj := (path * option str)%type.
+Definition fproj_eqb (a b : fproj) : bool := path_eqb (fst a) (fst b) && opt_eqb str_eqb (snd a) (snd b).
+
+Fixpoint dfs (fuel : nat) (st : ir) (par : path) : list fproj :=
+  match fuel with
+  | O => []
+  | S f => flat_map (fun e => (epath e, eprim e) :: dfs f st (epath e)) (children st par)
+  end.
+Definition ir_proj (st : ir) : list fproj := dfs (S (length st)) st [].
+
+Definition subset (a b : list fproj) : bool := forallb (fun x => existsb (fproj_eqb x) b) a.
+Definition same_set (a b : list fproj) : bool := Nat.eqb (length a) (length b) && subset a b && subset b a.
+
+Definition check_ir (p : program) (impl : option (list fproj)) : list N :=
+  match impl with
+  | None => [19]
+  | Some fs =>
+      flag (match run keq_go mt_go p with
+            | Some st => list_eqb fproj_eqb (ir_proj st) fs
+            | None => false end) 1
+      (* glob_equiv_expansion evaluated on the implementation's IR: it holds the fields and values of the
+         reference expansion *)
+      ++ flag (same_set fs (ir_proj (run_plain keq_go (expand keq_go mt_go p)))) 18
+  end.
+
 Definition check_case (c : case) : list N :=
   match c with
   | CMatch pat rows => nodup N.eq_dec (flat_map (check_row pat) rows)
   | CPat text pat => flag (alternating pat || has_escaped_star text) 2
+  | CIR p impl => check_ir p impl
   | CExp g e =>
       match g, e with
       | GOk bg, GOk be => nodup N.eq_dec (check_boards bg be)
